@@ -143,7 +143,7 @@ def regen_all():
              ("t_restart", "generate", ["Sympler/Gen/RestartGen.lean"]), ("t_smartlist", "generate", ["Sympler/Gen/SmartListGen.lean"]),
              ("t_verlet", "generate", ["Sympler/Gen/VerletGen.lean"]), ("t_exprtable", "generate", ["Sympler/Gen/ExprTableGen.lean"]),
              ("t_dyn", "generate", ["Sympler/Gen/DynGen.lean"]), ("t_validate", "generate", ["Sympler/Gen/ValidateGen.lean"]), ("t_collide", "generate", ["Sympler/Gen/CollideGen.lean"]), ("t_threads", "generate", ["Sympler/Gen/ThreadsGen.lean"]), ("t_stages", "generate", ["Sympler/Gen/StagesGen.lean"]), ("t_celllists", "generate", ["Sympler/Gen/CellListsGen.lean"]), ("t_pairguards", "generate", ["Sympler/Gen/PairGuardsGen.lean"]),
-             ("t_forceslots", "generate", ["Sympler/Gen/ForceSlotsGen.lean"]), ("t_createdist", "generate", ["Sympler/Gen/CreateDistGen.lean"]), ("t_pairlists", "generate", ["Sympler/Gen/PairListsGen.lean"]), ("t_intloops", "generate", ["Sympler/Gen/IntLoopsGen.lean"]), ("t_integlambda", "generate", ["Sympler/Gen/IntegLambdaGen.lean"]), ("t_hittime", "generate_real", ["PropsR/Gen/HitTimeReal.lean"]), ("t_hittime", "generate_float", ["Sympler/Gen/HitTimeFloat.lean"])]
+             ("t_forceslots", "generate", ["Sympler/Gen/ForceSlotsGen.lean"]), ("t_createdist", "generate", ["Sympler/Gen/CreateDistGen.lean"]), ("t_pairlists", "generate", ["Sympler/Gen/PairListsGen.lean"]), ("t_intloops", "generate", ["Sympler/Gen/IntLoopsGen.lean"]), ("t_disp", "generate", ["Sympler/Gen/DispGen.lean"]), ("t_integlambda", "generate", ["Sympler/Gen/IntegLambdaGen.lean"]), ("t_hittime", "generate_real", ["PropsR/Gen/HitTimeReal.lean"]), ("t_hittime", "generate_float", ["Sympler/Gen/HitTimeFloat.lean"])]
     with Lock("regen"):
         for mod, fn, outs in table:
             try:
